@@ -514,6 +514,12 @@ def gen_c18(rng, tier):
         out.append(gen_sched.gen_sched_R(rng) if i % 2 == 0 else gen_sched.gen_sched_C(rng))
     for i in range(n // 6):
         out.append(gen_sched.gen_sched_L(rng))
+    for i in range(n // 10):
+        out.append(gen_sched.gen_sched_H(rng))
+    innerh = ('orig', 'a;b\nc', 'f0.js')
+    for progs, steps in (([['h'], ['h']], [2, 2]), ([['h', 'h'], ['h']], [3, 2]), ([['h'], ['h'], ['h']], [2, 2, 2])):
+        for sch in sorted(gen_sched.all_interleavings(steps))[::(3 if tier == 'quick' else 1)]:
+            out.append(Case('sched', {'k': 'H', 'inner': innerh, 'progs': progs, 'sched': list(sch)}, {'nontrivial', 'exhaustive_scope', 'hash_probe'}))
     # bounded exhaustive: 2 threads, all interleavings of one observer vs one clone on a stale index,
     # and of map vs stream on a cold cache
     inner = ('raws', 'abcdef')
@@ -540,7 +546,7 @@ def gen_c18(rng, tier):
 C18 = Spec('C18',
     kinds={'sched': {'ser': gen_sched.ser_sched, 'proj': None, 'shrink': gen_sched.shrink_sched}},
     gen=gen_c18, normalize=gen_sched.normalize,
-    rule='2-3 threads with 1-3 operations each over a shared ReplaceSource (observers that sort lazily, clone; cold, sorted or stale index) or a shared CachedSource and clones of it (map and stream in all option sets); random schedules at the granularity of the schedule points before each shared-state access, plus all interleavings of small programs (observer vs clone on a stale index; map vs stream on a cold cache); lock-probe cases park a thread inside the critical section of the stream fill path (before its insert) and let the others run into the held shard lock',
+    rule='2-3 threads with 1-3 operations each over a shared ReplaceSource (observers that sort lazily, clone; cold, sorted or stale index) or a shared CachedSource and clones of it (map and stream in all option sets); random schedules at the granularity of the schedule points before each shared-state access, plus all interleavings of small programs (observer vs clone on a stale index; map vs stream on a cold cache); lock-probe cases park a thread inside the critical section of the stream fill path (before its insert) and let the others run into the held shard lock; hash-probe cases park a thread inside the Hash callback of a user-defined child, i.e. inside the one-time initialisation of CachedSource::hash, while other threads hash clones',
     explanation='Sem/Conc.v is an interleaving semantics with one step per shared-state access (Sem/ConcLock.v: the stream fill path as acquire / store-and-release with blocking); the harness executes the same schedule on real threads parked at the hook-H3 schedule points and the per-thread site traces, all results, the final flag/index and the storage identity of every cache entry after every step are compared with the model; chk_C18_* : every result equals the sequential answer, every clone satisfies the object invariant, cache entries are write-once',
     checker_name='ApiSched.chk_C18_replace / chk_C18_cached', model_name='Sem/Conc.v, Sem/ConcLock.v')
 
